@@ -76,7 +76,17 @@ such a row performs no action -/
 def switchRow (c : CRow) : Bool :=
   switchTypes.contains c.row.type && c.row.nodeUuid.isEmpty && c.row.nodeName.isEmpty && c.refAct.isNone
 
-def rowOk (c : CRow) : Bool := plainActionRow c || switchRow c
+/-- a `hard_exit` / `loose_exit` row: the paths its edges continue end there -/
+def exitRow (c : CRow) : Bool :=
+  (decide (c.row.type = "hard_exit".toList) || decide (c.row.type = "loose_exit".toList)) && c.row.nodeUuid.isEmpty
+
+/-- a `go_to` row: its edges enter the named rows -/
+def gotoRow (c : CRow) : Bool := decide (c.row.type = "go_to".toList) && c.row.nodeUuid.isEmpty
+
+/-- a row of the fragment that produces a node -/
+def nodeRowOk (c : CRow) : Bool := plainActionRow c || switchRow c
+
+def rowOk (c : CRow) : Bool := nodeRowOk c || exitRow c || gotoRow c
 
 def isNR (c : RefFlow.Cond) : Bool := RefFlow.lower c.value = "no response".toList
 
